@@ -701,7 +701,7 @@ impl Value {
                             ctx.add_variable_from_value(&comprehension.accu_var, accu);
                         }
                     }
-                    t => todo!("Support {t:?}"),
+                    target => return Err(ExecutionError::UnsupportedTargetType { target }),
                 }
                 Value::resolve(comprehension.result.deref(), &ctx)
             }
